@@ -23,10 +23,13 @@ def run(ctx):
     if ctx.replay:
         table = [(ctx.replay["case"]["program"], "replay")]
     elif ctx.tier != "thorough":
-        keep = [x for x in table if x[1].split(":")[0] not in ("binary", "math")]
-        rest = [x for x in table if x[1].split(":")[0] in ("binary", "math")]
+        # the typing rules are per operator CLASS: one operator of every class (comparison, bitwise, arithmetic with and without string +, shift,
+        # logical) is kept for EVERY operand pair, the other operators are sampled
+        per_class = {"==", "<", "&", "+", "-", "<<", "&&"}
+        keep = [x for x in table if x[1].split(":")[0] not in ("binary", "math") or (x[1].split(":")[0] == "binary" and x[1].split(":")[1] in per_class)]
+        rest = [x for x in table if x not in keep] if False else [x for x in table if x[1].split(":")[0] == "math" or (x[1].split(":")[0] == "binary" and x[1].split(":")[1] not in per_class)]
         rng.shuffle(rest)
-        table = keep + rest[:6000]
+        table = keep + rest[:2500]
     pool = tircheck.Pool(ctx)
     pool.add(table)
     ntable = len(table)
